@@ -160,7 +160,7 @@ type vInfo struct {
 	elems   []any // for slices: the elements, boxed, in order (nil when not checked element-wise)
 }
 
-const vCatalogueSize = 43
+const vCatalogueSize = 46
 
 // vAnyOf returns a value whose dynamic type is chosen (by forking) from the catalogue; scalar
 // contents are symbolic. The info says what the *documentation* promises about it.
@@ -258,8 +258,14 @@ func vAnyOf(label string) (any, vInfo) {
 		return vNondet[uintptr](label + ".v"), vInfo{}
 	case 41:
 		return &vError{id: 77}, vInfo{} // a payload that happens to implement error (pointer type)
-	default:
+	case 42:
 		return vCustomErr{code: vNondet[int](label + ".v")}, vInfo{} // ... and a value type implementing error
+	case 43:
+		return NewResult(vNondet[int](label + ".v")), vInfo{} // the library's own Result as a payload: a struct, not a number
+	case 44:
+		return NewResult([]int{vNondet[int](label + ".v"), 2}), vInfo{} // ... not a slice either
+	default:
+		return NewResult(vNondet[string](label + ".v")), vInfo{} // ... nor a string
 	}
 }
 
